@@ -609,14 +609,16 @@ impl Program {
         }
         instructions.rotate_right(offset as usize);
         if let Some(boundary_char_entrypoint) = self.left_boundary_char_entrypoint {
+            // The instructions were rotated by `offset`, so the boundary char program moved too.
+            // The field is kept in step with the redirect instruction: this is also the value
+            // the .tfm deserializer reads back from that instruction.
+            let boundary_char_entrypoint = boundary_char_entrypoint + offset as u16;
             instructions.push(Instruction {
                 next_instruction: None,
                 right_char: Char(0),
-                operation: Operation::EntrypointRedirect(
-                    boundary_char_entrypoint + offset as u16,
-                    false,
-                ),
-            })
+                operation: Operation::EntrypointRedirect(boundary_char_entrypoint, false),
+            });
+            self.left_boundary_char_entrypoint = Some(boundary_char_entrypoint);
         }
         new_entrypoints
     }
